@@ -607,6 +607,24 @@ def rule_arg1(ctx: Ctx) -> RuleResult:
                         return False
                     f = m.enclosing_function(f)
                 return f is fn
+            # ... nor replace a sequence it was given by a collapsed or reordered one: the caller's list of branches / stages / sources
+            # means its elements at their positions, duplicates included (tee_map(op, op) has two branches)
+            for s in ast.walk(fn):
+                if not (isinstance(s, ast.Assign) and m.enclosing_function(s) is fn and len(s.targets) == 1 and isinstance(s.targets[0], ast.Name)):
+                    continue
+                col = None
+                for c in ast.walk(s.value):
+                    if isinstance(c, ast.Call):
+                        dn = dotted_name(c.func) or ""
+                        if dn in ("set", "frozenset", "sorted", "reversed", "dict.fromkeys") and c.args and isinstance(c.args[0], ast.Name) \
+                                and c.args[0].id in (set(params) | alias):
+                            col = (c, dn)
+                if col is not None and (s.targets[0].id in params or s.targets[0].id in alias):
+                    r.ob(False, lambda s=s, col=col, fn=fn: Finding(
+                        "ARG-1", "%s::%s{%s collapsed}" % (rel, fn.name, col[0].args[0].id), m.where(s),
+                        "'%s' replaces the sequence the caller gave as '%s' by %s(...) of it: duplicates and / or positions are lost, and the number and "
+                        "order of its elements are part of what the caller asked for (the same operator listed twice is two branches)" % (
+                            ast.unparse(s)[:70], col[0].args[0].id, col[1])))
             for n in ast.walk(fn):
                 hit = None
                 if isinstance(n, ast.Call) and isinstance(n.func, ast.Attribute) and n.func.attr in MUTATORS and isinstance(n.func.value, ast.Name) \
